@@ -54,6 +54,7 @@ impl Wake for Unpark {
 /// wake it; a sleeper that only comes back through its own time-out although the acknowledgement is complete was not woken.
 pub fn run_handover(seed: u64, rounds: usize, backlog: usize, timeout: Duration, out: &mut dyn Write) -> HistOutcome {
     let mut calls = 0usize;
+    let (mut rescues, mut rescued_shut, mut rescued_plain) = (0usize, false, false);
     for round in 0..rounds {
         let mut rng = StdRng::seed_from_u64(seed.wrapping_add(round as u64));
         let cache = Arc::new(CacheD::<u64, u64>::new(
@@ -72,6 +73,13 @@ pub fn run_handover(seed: u64, rounds: usize, backlog: usize, timeout: Duration,
                 matches!(Pin::new(&mut handle).poll(&mut context), Poll::Pending)
             }).join().unwrap_or(false)
         };
+        // every third round the acknowledgement is completed by a shutdown that drains the queue (status ShuttingDown) instead of
+        // by the execution of the command: whoever completes it has to wake the sleeper
+        let with_shutdown = round % 3 == 2;
+        if with_shutdown {
+            let cache = cache.clone();
+            std::thread::spawn(move || { std::thread::sleep(Duration::from_micros(300)); cache.shutdown(); });
+        }
         // the task that takes over: sleeps until woken
         let sleeper = Arc::new(Unpark(std::thread::current(), std::sync::atomic::AtomicUsize::new(0)));
         let waker = Waker::from(sleeper.clone());
@@ -98,14 +106,16 @@ pub fn run_handover(seed: u64, rounds: usize, backlog: usize, timeout: Duration,
         };
         for result in pending { let _ = wait(result, deadline); }
         calls += 1;
-        serde_json::to_writer(&mut *out, &serde_json::json!({"t": "h", "run": round + 1, "w": 0, "n": 1, "k": 1, "op": "handover", "v": if first && saw_pending { 1 } else { 0 }, "st": status,
+        serde_json::to_writer(&mut *out, &serde_json::json!({"t": "h", "run": round + 1, "w": 0, "n": 1, "k": 1, "op": if with_shutdown { "handover_shut" } else { "handover" }, "v": if first && saw_pending { 1 } else { 0 }, "st": status,
                                                              "got": if rescued { -1 } else { 1 }})).unwrap();
         out.write_all(b"\n").unwrap();
         cache.shutdown();
         if status == -3 {
             return HistOutcome { rounds: round + 1, calls, stall: Some(format!("round {} (seed {}): the acknowledgement never completed", round, seed.wrapping_add(round as u64))) };
         }
-        if rescued { break; }   // (one lost wake-up is enough; every further one costs a whole nap)
+        // (a lost wake-up costs a whole nap: stop once one was seen with and one without a shutdown, or after three)
+        if rescued { rescues += 1; if with_shutdown { rescued_shut = true; } else { rescued_plain = true; } }
+        if (rescued_shut && rescued_plain) || rescues >= 3 { break; }
     }
     HistOutcome { rounds, calls, stall: None }
 }
